@@ -11,6 +11,7 @@ import struct
 
 import cpppo
 from cpppo.server.enip import device, logix, parser
+from cpppo.server.enip import ucmm as ucmm_mod
 from cpppo.server.enip.device import Attribute
 
 SIZES = {"BOOL": 1, "SINT": 1, "USINT": 1, "INT": 2, "UINT": 2, "DINT": 4, "UDINT": 4, "LINT": 8, "ULINT": 8,
@@ -54,13 +55,25 @@ def enc_elem(t, v):
         return []
 
 
+def route_py(segs):
+    """spec route path segments -> the list-of-dicts form cpppo configuration uses"""
+    out = []
+    for g in segs:
+        if g["k"] == "port":
+            out.append({"port": g["p"], "link": g["l"]})
+        else:
+            out.append({"port": g["p"], "link": bytes(bytearray(g["a"])).decode("ascii")})
+    return out
+
+
 class Device(object):
     """A freshly configured simulator: tags per `cfg` (the spec's configuration record)."""
 
-    def __init__(self, cfg, attribute_class=Attribute):
+    def __init__(self, cfg, attribute_class=Attribute, pers=None):
         self.cfg = cfg
         device.lookup_reset()
         logix.setup_reset()
+        ucmm_mod.UCMM.sessions.clear()
         logix.Logix.MAX_BYTES = cfg["budget"]
         device.Connection_Manager.forwards.clear() if hasattr(device.Connection_Manager, "forwards") else None
         self.attrs = []
@@ -82,7 +95,14 @@ class Device(object):
             dict.__setitem__(tags, name, ent)
             self.attrs.append(att)
         self.tags = tags
-        self.ucmm = logix.setup(tags=tags)
+        kw = {}
+        if pers is not None and pers["k"] != "any":
+            rp = False if pers["k"] == "simple" else route_py(pers["segs"])
+
+            class UCMM(ucmm_mod.UCMM):          # as main() does for --route-path / --simple
+                route_path = rp
+            kw["UCMM_class"] = UCMM
+        self.ucmm = logix.setup(tags=tags, **kw)
         self.names = [bytes(bytearray(tg["name"])).decode("iso-8859-1") for tg in cfg["tags"]]
         got = [tuple(device.resolve_tag(n) or ()) for n in self.names]
         want = [tuple(tg["cia"]) for tg in cfg["tags"]]
